@@ -126,8 +126,13 @@ pub fn eval(case: &Case, st: &mut Stats) -> Result<(), String> {
                 f2.update(c);
             }
             1 => {
-                r2.update_by_iter(c.iter().copied());
-                f2.update_by_iter(c.iter().copied());
+                // iterators with exact and with inexact / wrong size hints (only the items count)
+                let hint = (k / 6 % 4) as u8;
+                r2.update_by_iter(crate::checks::c03::HintIter { inner: c.iter(), hint });
+                f2.update_by_iter(crate::checks::c03::HintIter { inner: c.iter(), hint });
+                if hint != 0 {
+                    st.class("iterator_with_inexact_size_hint");
+                }
             }
             2 => {
                 for &b in c {
